@@ -349,4 +349,976 @@ theorem run_lite (env : Env) : ∀ (evs : List Ev) (s : St), Quiet s evs →
     rw [this, hl]
     rfl
 
+set_option linter.unusedSimpArgs false
+
+theorem lookup_append_fresh {ν : Type} (l k : Int) (v : ν) (ign : List (Int × ν)) (h : lookup k ign = none) :
+    lookup l (ign ++ [(k, v)]) = if l = k then some v else lookup l ign := by
+  induction ign with
+  | nil => simp [lookup]
+  | cons p ps ih =>
+    obtain ⟨k', v'⟩ := p
+    simp only [lookup, List.cons_append] at h ⊢
+    by_cases hk : k = k'
+    · simp [hk] at h
+    · simp only [hk, if_false] at h
+      by_cases hl : l = k'
+      · subst hl
+        have : ¬ l = k := fun e => hk e.symm
+        simp [this]
+      · simp only [hl, if_false]
+        exact ih h
+
+def hitNew (o : Opts) (i : Info) (C : List CodeName) : Bool :=
+  !i.blocker && (codeDisabled o i.code || lineMatches o i.code (some C))
+
+def firstNew (p : Int → Bool) (hit : Bool) (L : Int) : List Int → Bool
+  | [] => false
+  | l :: ls => if p l then false else if l = L ∧ hit then true else firstNew p hit L ls
+
+theorem find_firstNew (p p' : Int → Bool) (hit : Bool) (L : Int)
+    (hoff : ∀ l, l ≠ L → p' l = p l) (hL : p' L = hit) (himp : p L = true → hit = true) :
+    ∀ span : List Int, span.find? p' = if firstNew p hit L span then some L else span.find? p := by
+  intro span
+  induction span with
+  | nil => simp [firstNew]
+  | cons l ls ih =>
+    by_cases hp : p l = true
+    · have hp' : p' l = true := by
+        by_cases hl : l = L
+        · subst hl; rw [hL]; exact himp hp
+        · rw [hoff l hl]; exact hp
+      simp [firstNew, hp, hp', List.find?_cons]
+    · have hpf : p l = false := by simpa using hp
+      by_cases hl : l = L ∧ hit = true
+      · obtain ⟨hl1, hl2⟩ := hl
+        subst hl1
+        have hp' : p' l = true := by rw [hL]; exact hl2
+        simp [firstNew, hpf, hl2, hp', List.find?_cons]
+      · have hp' : p' l = false := by
+          by_cases hl1 : l = L
+          · subst hl1
+            rw [hL]
+            cases hh : hit with
+            | false => rfl
+            | true => exact absurd ⟨rfl, hh⟩ hl
+          · rw [hoff l hl1]; exact hpf
+        simp only [firstNew, hpf, hl, List.find?_cons, hp']
+        simpa using ih
+
+/-- `c'` is `c` with the entry `(L, C)` appended to file `f`'s ignore map (which has no entry for `L`) -/
+structure IgnExt (f : FileId) (L : Int) (C : List CodeName) (c c' : Cfg) : Prop where
+  file : c'.file = c.file
+  importCtx : c'.importCtx = c.importCtx
+  opts : c'.opts = c.opts
+  skipped : c'.skippedLines = c.skippedLines
+  ignoredFiles : c'.ignoredFiles = c.ignoredFiles
+  other : ∀ g, g ≠ f → lookup g c'.ignoredLines = lookup g c.ignoredLines
+  here : lookup f c'.ignoredLines = (lookup f c.ignoredLines).map (· ++ [(L, C)])
+  fresh : ∀ ign, lookup f c.ignoredLines = some ign → lookup L ign = none
+
+/-- the report is now ignored by the new entry: it is for file `f`, not a blocker, and the scan of its origin
+    span reaches `L` with a match before any line that ignored it already -/
+def newlyFirst (c : Cfg) (f : FileId) (L : Int) (C : List CodeName) (file : FileId) (i : Info) : Bool :=
+  decide (file = f) && !i.blocker &&
+    match lookup f c.ignoredLines with
+    | some ign => firstNew (fun l => isIgnoredError c.opts l i ign) (hitNew c.opts i C) L i.span
+    | none => false
+
+/-- the "not covered" note the new entry causes: the info sits on line `L`, has a code, and `C` is not bare -/
+def extraNote (env : Env) (c : Cfg) (f : FileId) (L : Int) (C : List CodeName) (file : FileId) (i : Info) :
+    List (FileId × Info) :=
+  if file = f ∧ i.line = L ∧ (lookup f c.ignoredLines).isSome then
+    match i.code, C with
+    | some k, _ :: _ => [(file, noteFor i (notCoveredMsg env k C) none false 0)]
+    | _, _ => []
+  else []
+
+theorem isIgnoredError_ext (o : Opts) (i : Info) (ign : List (Int × List CodeName)) (L : Int) (C : List CodeName)
+    (hf : lookup L ign = none) (l : Int) :
+    isIgnoredError o l i (ign ++ [(L, C)]) = if l = L then hitNew o i C else isIgnoredError o l i ign := by
+  unfold isIgnoredError hitNew
+  rw [lookup_append_fresh l L C ign hf]
+  by_cases hl : l = L
+  · simp only [hl, if_true]
+    cases i.blocker <;> cases codeDisabled o i.code <;> simp
+  · simp [hl]
+
+theorem isIgnoredError_fresh (o : Opts) (i : Info) (ign : List (Int × List CodeName)) (L : Int) (C : List CodeName)
+    (hf : lookup L ign = none) (h : isIgnoredError o L i ign = true) : hitNew o i C = true := by
+  unfold isIgnoredError at h
+  unfold hitNew
+  rw [hf] at h
+  cases hb : i.blocker <;> cases hd : codeDisabled o i.code <;> simp [hb, hd, lineMatches] at h ⊢
+
+theorem ignoreStage_ext (env : Env) (f : FileId) (L : Int) (C : List CodeName) (c c' : Cfg)
+    (h : IgnExt f L C c c') (file : FileId) (i : Info) :
+    ignoreStage env c' file i =
+      if newlyFirst c f L C file i then markOrDrop env c.opts i L else ignoreStage env c file i := by
+  unfold ignoreStage newlyFirst
+  cases hb : i.blocker with
+  | true => simp
+  | false =>
+    simp only [Bool.false_eq_true, if_false, Bool.not_false, Bool.and_true]
+    by_cases hfile : file = f
+    · subst hfile
+      rw [h.here]
+      cases hm : lookup file c.ignoredLines with
+      | none => simp [afterLoop, h.ignoredFiles]
+      | some ign =>
+        have hfr := h.fresh ign hm
+        simp only [Option.map_some, decide_true, Bool.true_and]
+        unfold scanSpan
+        rw [h.opts]
+        have hfind := find_firstNew (fun l => isIgnoredError c.opts l i ign)
+          (fun l => isIgnoredError c.opts l i (ign ++ [(L, C)])) (hitNew c.opts i C) L
+          (fun l hl => by simp [isIgnoredError_ext c.opts i ign L C hfr l, hl])
+          (by simp [isIgnoredError_ext c.opts i ign L C hfr L])
+          (fun hp => isIgnoredError_fresh c.opts i ign L C hfr hp) i.span
+        rw [hfind]
+        cases hfn : firstNew (fun l => isIgnoredError c.opts l i ign) (hitNew c.opts i C) L i.span with
+        | true => simp
+        | false =>
+          simp only [Bool.false_eq_true, if_false]
+          cases List.find? (fun l => isIgnoredError c.opts l i ign) i.span with
+          | some l => rfl
+          | none => simp [afterLoop, h.ignoredFiles]
+    · rw [h.other file hfile]
+      have : decide (file = f) = false := by simp [hfile]
+      simp only [this, Bool.false_and, Bool.false_eq_true, if_false]
+      cases lookup file c.ignoredLines with
+      | none => simp [afterLoop, h.ignoredFiles]
+      | some ign =>
+        simp only [scanSpan, h.opts]
+        cases List.find? (fun l => isIgnoredError c.opts l i ign) i.span with
+        | some l => rfl
+        | none => simp [afterLoop, h.ignoredFiles]
+
+theorem noteList_ext (env : Env) (f : FileId) (L : Int) (C : List CodeName) (c c' : Cfg)
+    (h : IgnExt f L C c c') (file : FileId) (i : Info) :
+    noteList env c' file i = noteList env c file i ++ extraNote env c f L C file i := by
+  unfold noteList notCoveredNote extraNote
+  cases hc : i.code with
+  | none => simp
+  | some k =>
+    by_cases hfile : file = f
+    · subst hfile
+      rw [h.here]
+      cases hm : lookup file c.ignoredLines with
+      | none => simp [lookup]
+      | some ign =>
+        have hfr := h.fresh ign hm
+        simp only [Option.map_some, Option.getD_some, Option.isSome_some, and_true, true_and]
+        rw [lookup_append_fresh i.line L C ign hfr]
+        by_cases hl : i.line = L
+        · simp only [hl, if_true]
+          rw [hfr]
+          cases C with
+          | nil => simp
+          | cons x xs => simp
+        · simp only [hl, if_false]
+          cases lookup i.line ign with
+          | none => simp
+          | some cs => cases cs <;> simp
+    · rw [h.other file hfile]
+      simp [hfile]
+
+/-- append the entry to every binding of `f` in the ignore maps -/
+def extMaps (f : FileId) (L : Int) (C : List CodeName) :
+    List (FileId × List (Int × List CodeName)) → List (FileId × List (Int × List CodeName))
+  | [] => []
+  | (g, ign) :: rest => (g, if g = f then ign ++ [(L, C)] else ign) :: extMaps f L C rest
+
+/-- the configuration with `# type: ignore[C]` added on line `L` of file `f` -/
+def Cfg.ext (f : FileId) (L : Int) (C : List CodeName) (c : Cfg) : Cfg :=
+  { c with ignoredLines := extMaps f L C c.ignoredLines }
+
+theorem lookup_extMaps (f : FileId) (L : Int) (C : List CodeName) (g : FileId) :
+    ∀ m, lookup g (extMaps f L C m) =
+      if g = f then (lookup f m).map (· ++ [(L, C)]) else lookup g m := by
+  intro m
+  induction m with
+  | nil => simp [extMaps, lookup]
+  | cons p ps ih =>
+    obtain ⟨g', ign⟩ := p
+    simp only [extMaps, lookup]
+    by_cases hg : g = g'
+    · subst hg
+      by_cases hf : g = f
+      · simp [hf]
+      · simp [hf]
+    · simp only [hg, if_false]
+      rw [ih]
+      by_cases hf : g = f
+      · subst hf
+        have : ¬ g' = g := fun e => hg e.symm
+        simp [hg]
+      · simp [hf]
+
+theorem ignExt_ext (f : FileId) (L : Int) (C : List CodeName) (c : Cfg)
+    (hfresh : ∀ ign, lookup f c.ignoredLines = some ign → lookup L ign = none) :
+    IgnExt f L C c (c.ext f L C) :=
+  { file := rfl, importCtx := rfl, opts := rfl, skipped := rfl, ignoredFiles := rfl,
+    other := fun g hg => by simp [Cfg.ext, lookup_extMaps, hg],
+    here := by simp [Cfg.ext, lookup_extMaps],
+    fresh := hfresh }
+
+/-- the same stream for the program with the extra ignore comment -/
+def addIgnoreEv (f : FileId) (L : Int) (C : List CodeName) : Ev → Ev
+  | .setIgnored g ign a => .setIgnored g (if g = f then ign ++ [(L, C)] else ign) a
+  | e => e
+
+/-- the event does not itself bind line `L` of file `f` -/
+def freshEv (f : FileId) (L : Int) : Ev → Prop
+  | .setIgnored g ign _ => g = f → lookup L ign = none
+  | _ => True
+instance (f : FileId) (L : Int) (e : Ev) : Decidable (freshEv f L e) := by cases e <;> (unfold freshEv; infer_instance)
+
+def FreshCfg (f : FileId) (L : Int) (c : Cfg) : Prop :=
+  ∀ ign, lookup f c.ignoredLines = some ign → lookup L ign = none
+
+theorem stepCfg_ext (f : FileId) (L : Int) (C : List CodeName) (c : Cfg) (e : Ev) :
+    stepCfg (c.ext f L C) (addIgnoreEv f L C e) = (stepCfg c e).ext f L C := by
+  cases e <;> simp [stepCfg, addIgnoreEv, Cfg.ext, extMaps]
+
+theorem freshCfg_step (f : FileId) (L : Int) (c : Cfg) (e : Ev) (hc : FreshCfg f L c) (he : freshEv f L e) :
+    FreshCfg f L (stepCfg c e) := by
+  cases e with
+  | setIgnored g ign a =>
+    intro ign' h
+    simp only [stepCfg, lookup] at h
+    by_cases hg : f = g
+    · simp only [hg, if_true] at h
+      injection h with h
+      rw [← h]
+      exact he hg.symm
+    · simp only [hg, if_false] at h
+      exact hc ign' h
+  | _ => exact hc
+
+/-- **the delta rule**: what the sink does with a submitted info when `(L, C)` is added, expressed with the
+    *original* configuration `c` -/
+def deltaAdd (env : Env) (f : FileId) (L : Int) (C : List CodeName) (c : Cfg) (l : Lite) (i : Info)
+    (g : Option FileId) : Lite :=
+  liteOutcome l (g.getD c.file) i
+    (noteList env c (g.getD c.file) i ++ extraNote env c f L C (g.getD c.file) i)
+    (if newlyFirst c f L C (g.getD c.file) i then markOrDrop env c.opts i L
+     else ignoreStage env c (g.getD c.file) i)
+
+def deltaStep (env : Env) (f : FileId) (L : Int) (C : List CodeName) (c : Cfg) (l : Lite) : Ev → Lite
+  | .report a => deltaAdd env f L C c l (mkInfo env c a) none
+  | .add i g => deltaAdd env f L C c l i g
+  | e => liteStep env (c.ext f L C) l e
+
+def deltaRun (env : Env) (f : FileId) (L : Int) (C : List CodeName) : Cfg → Lite → List Ev → Lite
+  | _, l, [] => l
+  | c, l, e :: es => deltaRun env f L C (stepCfg c e) (deltaStep env f L C c l e) es
+
+theorem mkInfo_ext (env : Env) (f : FileId) (L : Int) (C : List CodeName) (c : Cfg) (a : ReportArgs) :
+    mkInfo env (c.ext f L C) a = mkInfo env c a := rfl
+
+theorem liteAdd_ext (env : Env) (f : FileId) (L : Int) (C : List CodeName) (c : Cfg) (hc : FreshCfg f L c)
+    (l : Lite) (i : Info) (g : Option FileId) :
+    liteAdd env (c.ext f L C) l i g = deltaAdd env f L C c l i g := by
+  have h := ignExt_ext f L C c hc
+  unfold liteAdd deltaAdd
+  have hfile : (c.ext f L C).file = c.file := rfl
+  rw [hfile, ignoreStage_ext env f L C c _ h, noteList_ext env f L C c _ h]
+
+theorem liteStep_ext (env : Env) (f : FileId) (L : Int) (C : List CodeName) (c : Cfg) (hc : FreshCfg f L c)
+    (l : Lite) (e : Ev) :
+    liteStep env (c.ext f L C) l (addIgnoreEv f L C e) = deltaStep env f L C c l e := by
+  cases e with
+  | report a => simp only [addIgnoreEv, liteStep, deltaStep, mkInfo_ext]; exact liteAdd_ext env f L C c hc l _ none
+  | add i g => simp only [addIgnoreEv, liteStep, deltaStep]; exact liteAdd_ext env f L C c hc l i g
+  | setIgnored g ign a => rfl
+  | _ => rfl
+
+/-- the configuration after the events (independent of what was reported) -/
+def cfgRun (c : Cfg) (evs : List Ev) : Cfg := evs.foldl stepCfg c
+
+theorem liteRun_cfg (env : Env) : ∀ (evs : List Ev) (c : Cfg) (l : Lite), (liteRun env c l evs).1 = cfgRun c evs := by
+  intro evs
+  induction evs with
+  | nil => intro c l; rfl
+  | cons e es ih => intro c l; simp only [liteRun, cfgRun, List.foldl_cons]; exact ih _ _
+
+theorem liteRun_ext (env : Env) (f : FileId) (L : Int) (C : List CodeName) :
+    ∀ (evs : List Ev) (c : Cfg) (l : Lite), FreshCfg f L c → (∀ e ∈ evs, freshEv f L e) →
+      liteRun env (c.ext f L C) l (evs.map (addIgnoreEv f L C)) =
+        ((cfgRun c evs).ext f L C, deltaRun env f L C c l evs) := by
+  intro evs
+  induction evs with
+  | nil => intro c l _ _; rfl
+  | cons e es ih =>
+    intro c l hc hev
+    have he := hev e (by simp)
+    simp only [List.map_cons, liteRun, deltaRun, cfgRun, List.foldl_cons]
+    rw [stepCfg_ext, liteStep_ext env f L C c hc]
+    exact ih (stepCfg c e) _ (freshCfg_step f L c e hc he) (fun x hx => hev x (by simp [hx]))
+
+/-! ## disabling one error code -/
+
+/-- the diagnostic carries code `k`: its code is `k`, or a sub-code of `k` that is not enabled explicitly -/
+def carries (o : Opts) (k : CodeName) (code : Code) : Bool :=
+  decide (code.name = k) || (decide (code.subOf = some k) && !decide (code.name ∈ o.enabled))
+
+def Opts.dis (k : CodeName) (o : Opts) : Opts := { o with disabled := k :: o.disabled }
+
+theorem isEnabled_dis (o : Opts) (k : CodeName) (code : Code) :
+    isEnabled (o.dis k) code = (isEnabled o code && !carries o k code) := by
+  unfold isEnabled carries Opts.dis subDisabled
+  by_cases h1 : code.name = k
+  · simp [h1]
+  · by_cases h2 : code.name ∈ o.disabled
+    · simp [h1, h2]
+    · by_cases h3 : code.name ∈ o.enabled
+      · simp [h1, h2, h3]
+      · cases hs : code.subOf with
+        | none => simp [h1, h2, h3]
+        | some p =>
+          by_cases h4 : p = k
+          · simp [h1, h2, h3, h4]
+          · by_cases h5 : p ∈ o.disabled
+            · simp [h1, h2, h3, h4, h5]
+            · simp [h1, h2, h3, h4, h5]
+
+def Cfg.dis (k : CodeName) (c : Cfg) : Cfg := { c with opts := c.opts.dis k }
+
+def addDisabledEv (k : CodeName) : Ev → Ev
+  | .setFile f o => .setFile f (o.dis k)
+  | e => e
+
+theorem stepCfg_dis (k : CodeName) (c : Cfg) (e : Ev) :
+    stepCfg (c.dis k) (addDisabledEv k e) = (stepCfg c e).dis k := by
+  cases e <;> rfl
+
+/-- the report is dropped because its code is now disabled (`add_error_info` only looks when the file has an
+    ignore map and the origin span is not empty — both always true inside a build) -/
+def carrierDropped (c : Cfg) (k : CodeName) (file : FileId) (i : Info) : Bool :=
+  !i.blocker && (lookup file c.ignoredLines).isSome && !i.span.isEmpty &&
+    match i.code with
+    | some code => carries c.opts k code
+    | none => false
+
+theorem isIgnoredError_congr (o o' : Opts) (i : Info) (code : Code) (hc : i.code = some code)
+    (h : isEnabled o' code = isEnabled o code) (l : Int) (ign : List (Int × List CodeName)) :
+    isIgnoredError o' l i ign = isIgnoredError o l i ign := by
+  unfold isIgnoredError codeDisabled lineMatches codeMatches
+  simp only [hc, h]
+
+theorem markOrDrop_congr (env : Env) (o o' : Opts) (i : Info) (code : Code) (hc : i.code = some code)
+    (h : isEnabled o' code = isEnabled o code) (l : Int) :
+    markOrDrop env o' i l = markOrDrop env o i l := by
+  unfold markOrDrop
+  simp only [hc, Option.getD_some, h]
+
+theorem ignoreStage_dis (env : Env) (c : Cfg) (k : CodeName) (file : FileId) (i : Info)
+    (hcode : i.blocker = false → i.code.isSome = true) :
+    ignoreStage env (c.dis k) file i =
+      if carrierDropped c k file i then .dropped else ignoreStage env c file i := by
+  unfold ignoreStage carrierDropped
+  cases hb : i.blocker with
+  | true => simp
+  | false =>
+    have hsome := hcode hb
+    cases hc : i.code with
+    | none => rw [hc] at hsome; cases hsome
+    | some code =>
+      simp only [Bool.false_eq_true, if_false, Bool.not_false, Bool.true_and]
+      have hign : (c.dis k).ignoredLines = c.ignoredLines := rfl
+      rw [hign]
+      cases hm : lookup file c.ignoredLines with
+      | none => simp [afterLoop, Cfg.dis] <;> rfl
+      | some ign =>
+        simp only [Option.isSome_some, Bool.true_and]
+        have hopts : (c.dis k).opts = c.opts.dis k := rfl
+        have hen := isEnabled_dis c.opts k code
+        cases hcar : carries c.opts k code with
+        | false =>
+          have heq : isEnabled (c.opts.dis k) code = isEnabled c.opts code := by rw [hen, hcar]; simp
+          simp only [Bool.and_false, Bool.false_eq_true, if_false]
+          unfold scanSpan
+          rw [hopts]
+          have : (fun l => isIgnoredError (c.opts.dis k) l i ign) = (fun l => isIgnoredError c.opts l i ign) := by
+            funext l; exact isIgnoredError_congr _ _ i code hc heq l ign
+          rw [this]
+          cases List.find? (fun l => isIgnoredError c.opts l i ign) i.span with
+          | some l => exact markOrDrop_congr env _ _ i code hc heq l
+          | none => simp [afterLoop, Cfg.dis] <;> rfl
+        | true =>
+          have hdis : isEnabled (c.opts.dis k) code = false := by rw [hen, hcar]; simp
+          unfold scanSpan
+          rw [hopts]
+          have hall : ∀ l, isIgnoredError (c.opts.dis k) l i ign = true := by
+            intro l; simp [isIgnoredError, hb, codeDisabled, hc, hdis]
+          cases hsp : i.span with
+          | nil =>
+            simp [afterLoop, Cfg.dis] <;> rfl
+          | cons l ls =>
+            simp [List.find?_cons, hall, markOrDrop, hc, hdis]
+
+theorem noteList_dis (env : Env) (c : Cfg) (k : CodeName) (file : FileId) (i : Info) :
+    noteList env (c.dis k) file i = noteList env c file i := rfl
+
+/-- **the delta rule for a disabled code**, expressed with the original configuration -/
+def disAdd (env : Env) (k : CodeName) (c : Cfg) (l : Lite) (i : Info) (g : Option FileId) : Lite :=
+  if carrierDropped c k (g.getD c.file) i then l else liteAdd env c l i g
+
+def disStep (env : Env) (k : CodeName) (c : Cfg) (l : Lite) : Ev → Lite
+  | .report a => disAdd env k c l (mkInfo env c a) none
+  | .add i g => disAdd env k c l i g
+  | e => liteStep env c l e
+
+def disRun (env : Env) (k : CodeName) : Cfg → Lite → List Ev → Lite
+  | _, l, [] => l
+  | c, l, e :: es => disRun env k (stepCfg c e) (disStep env k c l e) es
+
+/-- every non-blocking info submitted by the event has an error code (`Errors.report` guarantees it) -/
+def codedEv : Ev → Prop
+  | .add i _ => i.blocker = false → i.code.isSome = true
+  | _ => True
+instance (e : Ev) : Decidable (codedEv e) := by cases e <;> (unfold codedEv; infer_instance)
+
+theorem mkInfo_coded (env : Env) (c : Cfg) (a : ReportArgs) :
+    (mkInfo env c a).blocker = false → (mkInfo env c a).code.isSome = true := by
+  intro hb
+  have hb' : a.blocker = false := hb
+  simp only [mkInfo, defaultCode]
+  cases a.code with
+  | some x => rfl
+  | none =>
+    cases parentCode a.parent with
+    | some x => rfl
+    | none => simp [hb']
+
+theorem liteAdd_dis (env : Env) (k : CodeName) (c : Cfg) (l : Lite) (i : Info) (g : Option FileId)
+    (hcode : i.blocker = false → i.code.isSome = true) :
+    liteAdd env (c.dis k) l i g = disAdd env k c l i g := by
+  unfold liteAdd disAdd
+  have hfile : (c.dis k).file = c.file := rfl
+  rw [hfile, ignoreStage_dis env c k _ i hcode, noteList_dis]
+  cases carrierDropped c k (g.getD c.file) i with
+  | true => rfl
+  | false => rfl
+
+theorem liteStep_dis (env : Env) (k : CodeName) (c : Cfg) (l : Lite) (e : Ev) (he : codedEv e) :
+    liteStep env (c.dis k) l (addDisabledEv k e) = disStep env k c l e := by
+  cases e with
+  | report a =>
+    simp only [addDisabledEv, liteStep, disStep]
+    exact liteAdd_dis env k c l (mkInfo env c a) none (mkInfo_coded env c a)
+  | add i g => simp only [addDisabledEv, liteStep, disStep]; exact liteAdd_dis env k c l i g he
+  | setFile f o => rfl
+  | _ => rfl
+
+theorem liteRun_dis (env : Env) (k : CodeName) :
+    ∀ (evs : List Ev) (c : Cfg) (l : Lite), (∀ e ∈ evs, codedEv e) →
+      liteRun env (c.dis k) l (evs.map (addDisabledEv k)) = ((cfgRun c evs).dis k, disRun env k c l evs) := by
+  intro evs
+  induction evs with
+  | nil => intro c l _; rfl
+  | cons e es ih =>
+    intro c l hev
+    simp only [List.map_cons, liteRun, disRun, cfgRun, List.foldl_cons]
+    rw [stepCfg_dis, liteStep_dis env k c l e (hev e (by simp))]
+    exact ih (stepCfg c e) _ (fun x hx => hev x (by simp [hx]))
+
+/-! ## unused ignores -/
+
+theorem filter_notin_isEmpty (codes used : List CodeName) :
+    (codes.filter (fun x => decide (x ∉ used))).isEmpty = true ↔ ∀ x ∈ codes, x ∈ used := by
+  rw [List.isEmpty_iff, List.filter_eq_nil_iff]
+  constructor
+  · intro h x hx
+    have := h x hx
+    simpa using this
+  · intro h x hx
+    have := h x hx
+    simpa using this
+
+/-- `generate_unused_ignore_errors` produces a message for the entry `(line, codes)` exactly when a bare ignore
+    suppressed nothing, or some listed code suppressed nothing -/
+theorem unusedMsg_isSome_iff (env : Env) (skipped : List Int) (used : List CodeName) (line : Int)
+    (codes : List CodeName) (hs : line ∉ skipped) (hu : env.unusedIgnore.name ∉ codes) :
+    (unusedMsg env skipped used line codes).isSome = true ↔
+      (codes = [] ∧ used = []) ∨ (∃ c ∈ codes, c ∉ used) := by
+  unfold unusedMsg
+  simp only [hs, hu, if_false]
+  cases hcodes : codes with
+  | nil =>
+    cases used with
+    | nil => simp
+    | cons u us => simp
+  | cons c cs =>
+    rw [← hcodes]
+    have hne : codes ≠ [] := by rw [hcodes]; simp
+    have hne' : codes.isEmpty = false := by cases codes with | nil => exact absurd rfl hne | cons _ _ => rfl
+    simp only [hne', Bool.false_and, Bool.false_eq_true, if_false, Bool.not_false, Bool.true_and]
+    by_cases hex : ∃ x ∈ codes, x ∉ used
+    · have hf : (codes.filter (fun x => decide (x ∉ used))).isEmpty = false := by
+        cases hh : (codes.filter (fun x => decide (x ∉ used))).isEmpty with
+        | false => rfl
+        | true =>
+          obtain ⟨x, hx, hxu⟩ := hex
+          exact absurd ((filter_notin_isEmpty codes used).1 hh x hx) hxu
+      simp only [hf, Bool.false_eq_true, if_false, Option.isSome_some, true_iff]
+      exact Or.inr hex
+    · have hall : ∀ x ∈ codes, x ∈ used := by
+        intro x hx
+        by_cases hxu : x ∈ used
+        · exact hxu
+        · exact absurd ⟨x, hx, hxu⟩ hex
+      have hf := (filter_notin_isEmpty codes used).2 hall
+      simp only [hf, if_true, Option.isSome_none, Bool.false_eq_true, false_iff]
+      rintro (⟨h1, _⟩ | h2)
+      · exact hne h1
+      · exact hex h2
+
+/-! ## the used-ignore log is the list of marks -/
+
+def markOf (env : Env) (c : Cfg) (i : Info) (g : Option FileId) : List (FileId × Int × CodeName) :=
+  match ignoreStage env c (g.getD c.file) i with
+  | .ignoredAt ln k => [(g.getD c.file, ln, k)]
+  | _ => []
+
+def evMarks (env : Env) (c : Cfg) : Ev → List (FileId × Int × CodeName)
+  | .report a => markOf env c (mkInfo env c a) none
+  | .add i g => markOf env c i g
+  | _ => []
+
+/-- all `used_ignored_lines` appends of a stream: (file, line, code) for every submitted info that an ignore suppressed -/
+def marksOf (env : Env) : Cfg → List Ev → List (FileId × Int × CodeName)
+  | _, [] => []
+  | c, e :: es => evMarks env c e ++ marksOf env (stepCfg c e) es
+
+theorem liteAdd_used (env : Env) (c : Cfg) (l : Lite) (i : Info) (g : Option FileId) :
+    (liteAdd env c l i g).used = l.used ++ markOf env c i g := by
+  unfold liteAdd markOf
+  cases ignoreStage env c (g.getD c.file) i <;> simp [liteOutcome]
+
+theorem liteStep_used (env : Env) (c : Cfg) (l : Lite) (e : Ev) :
+    (liteStep env c l e).used = l.used ++ evMarks env c e := by
+  cases e with
+  | report a => exact liteAdd_used env c l _ none
+  | add i g => exact liteAdd_used env c l i g
+  | genUnused f ts => simp only [liteStep, evMarks]; split <;> simp [liteAddAll]
+  | genNoCode f w ts => simp only [liteStep, evMarks]; split <;> simp [liteAddAll]
+  | _ => simp [liteStep, evMarks]
+
+theorem liteRun_used (env : Env) : ∀ (evs : List Ev) (c : Cfg) (l : Lite),
+    (liteRun env c l evs).2.used = l.used ++ marksOf env c evs := by
+  intro evs
+  induction evs with
+  | nil => intro c l; simp [liteRun, marksOf]
+  | cons e es ih =>
+    intro c l
+    simp only [liteRun, marksOf]
+    rw [ih, liteStep_used, List.append_assoc]
+
+/-! ## monotonicity: later stages only add -/
+
+def Dyn.le (d d' : Dyn) : Prop :=
+  d'.used = d.used ∧ (∀ x ∈ d.infos, x ∈ d'.infos) ∧ (∀ x ∈ d.hasBlockers, x ∈ d'.hasBlockers)
+
+theorem Dyn.le_refl (d : Dyn) : d.le d := ⟨rfl, fun _ h => h, fun _ h => h⟩
+theorem Dyn.le_trans {a b c : Dyn} (h1 : a.le b) (h2 : b.le c) : a.le c :=
+  ⟨h2.1.trans h1.1, fun x hx => h2.2.1 x (h1.2.1 x hx), fun x hx => h2.2.2 x (h1.2.2 x hx)⟩
+
+theorem rawAdd_le (env : Env) (d : Dyn) (file : FileId) (i : Info) : d.le (rawAdd env d file i) := by
+  refine ⟨rfl, fun x hx => by simp [rawAdd, hx], fun x hx => ?_⟩
+  simp only [rawAdd]
+  split <;> simp [hx]
+
+theorem onlyOnce_le (d : Dyn) (m : List Msg) : d.le { d with onlyOnce := m } := ⟨rfl, fun _ h => h, fun _ h => h⟩
+
+theorem addNote_le (env : Env) (d : Dyn) (file : FileId) (n : Option Info) : d.le (addNote env d file n) := by
+  cases n with
+  | none => exact Dyn.le_refl d
+  | some n => exact rawAdd_le env d file n
+
+theorem linkStage_le (env : Env) (cfg : Cfg) (d : Dyn) (file : FileId) (i : Info) : d.le (linkStage env cfg d file i) := by
+  unfold linkStage
+  cases i.code with
+  | none => exact Dyn.le_refl d
+  | some c =>
+    simp only
+    split
+    · split
+      · exact Dyn.le_refl d
+      · exact Dyn.le_trans (onlyOnce_le d _) (rawAdd_le env _ file _)
+    · exact Dyn.le_refl d
+
+theorem reportHidden_le (env : Env) (d : Dyn) (file : FileId) (i : Info) : d.le (reportHidden env d file i) := by
+  unfold reportHidden
+  split
+  · exact Dyn.le_refl d
+  · exact Dyn.le_trans (onlyOnce_le d _) (rawAdd_le env _ file _)
+
+theorem storeStage_not_once (env : Env) (cfg : Cfg) (d : Dyn) (file : FileId) (i : Info) (ho : i.onlyOnce = false) :
+    storeStage env cfg d file i = afterOnlyOnce env cfg d file i := by
+  unfold storeStage
+  simp [ho]
+
+/-- **a blocking error is never ignored**: whatever the ignore maps, disabled codes and `ignore_errors` files
+    say, a blocker (not only_once) is stored — possibly marked hidden by the many-errors limit — its file is
+    marked as having blockers, and no ignore is marked used -/
+theorem addErrorInfo_blocker (env : Env) (cfg : Cfg) (d : Dyn) (i : Info) (g : Option FileId)
+    (hb : i.blocker = true) (ho : i.onlyOnce = false) :
+    (addErrorInfo env cfg d i g).used = d.used ∧
+    (g.getD cfg.file) ∈ (addErrorInfo env cfg d i g).hasBlockers ∧
+    (((g.getD cfg.file), i) ∈ (addErrorInfo env cfg d i g).infos ∨
+     ((g.getD cfg.file), { i with hidden := true }) ∈ (addErrorInfo env cfg d i g).infos) := by
+  have hst : ignoreStage env cfg (g.getD cfg.file) i = .pass := by simp [ignoreStage, hb]
+  simp only [addErrorInfo, hst, applyOutcome]
+  generalize g.getD cfg.file = file
+  rw [storeStage_not_once env cfg d file i ho]
+  unfold afterOnlyOnce
+  have key : ∀ (d0 : Dyn) (j : Info), j.blocker = true →
+      let d3 := linkStage env cfg (addNote env (rawAdd env d0 file j) file (notCoveredNote env cfg file j)) file j
+      d3.used = d0.used ∧ file ∈ d3.hasBlockers ∧ (file, j) ∈ d3.infos := by
+    intro d0 j hj
+    have h1 := rawAdd_le env d0 file j
+    have h2 := addNote_le env (rawAdd env d0 file j) file (notCoveredNote env cfg file j)
+    have h3 := linkStage_le env cfg (addNote env (rawAdd env d0 file j) file (notCoveredNote env cfg file j)) file j
+    have h := Dyn.le_trans h2 h3
+    refine ⟨h.1.trans h1.1, h.2.2 file ?_, h.2.1 (file, j) ?_⟩
+    · simp [rawAdd, hj]
+    · simp [rawAdd]
+  unfold hideStage
+  split
+  · obtain ⟨k1, k2, k3⟩ := key (reportHidden env d file { i with hidden := true }) { i with hidden := true } hb
+    exact ⟨k1.trans (reportHidden_le env d file _).1, k2, Or.inr k3⟩
+  · obtain ⟨k1, k2, k3⟩ := key d i hb
+    exact ⟨k1, k2, Or.inl k3⟩
+
+/-! ## positions -/
+
+/-- a stored span is valid: `end_line ≥ line`, and on one line `end_column > column` — or both columns
+    unknown (`-1`), which is what `report_simple_error` stores -/
+def PosOk (i : Info) : Prop :=
+  i.line ≤ i.endLine ∧ (i.endLine = i.line → i.column < i.endColumn ∨ (i.column = -1 ∧ i.endColumn = -1))
+instance (i : Info) : Decidable (PosOk i) := by unfold PosOk; infer_instance
+
+/-! ## positions of stored infos -/
+
+def AllPos (d : Dyn) : Prop := ∀ p ∈ d.infos, PosOk p.2
+
+theorem rawAdd_pos (env : Env) (d : Dyn) (file : FileId) (i : Info) (h : AllPos d) (hi : PosOk i) :
+    AllPos (rawAdd env d file i) := by
+  intro p hp
+  simp only [rawAdd, List.mem_append, List.mem_singleton] at hp
+  rcases hp with hp | hp
+  · exact h p hp
+  · rw [hp]; exact hi
+
+theorem noteFor_pos (i : Info) (m : Msg) (c : Option Code) (o : Bool) (p : Int) (hi : PosOk i) :
+    PosOk (noteFor i m c o p) := hi
+
+theorem hidden_pos (i : Info) (hi : PosOk i) : PosOk { i with hidden := true } := hi
+
+theorem notCoveredNote_pos (env : Env) (cfg : Cfg) (file : FileId) (i n : Info) (hi : PosOk i)
+    (h : notCoveredNote env cfg file i = some n) : PosOk n := by
+  unfold notCoveredNote at h
+  split at h
+  · cases h
+  · split at h
+    · cases h
+    · cases h
+    · injection h with h; rw [← h]; exact hi
+
+theorem addNote_pos (env : Env) (cfg : Cfg) (d : Dyn) (file : FileId) (i : Info) (h : AllPos d) (hi : PosOk i) :
+    AllPos (addNote env d file (notCoveredNote env cfg file i)) := by
+  cases hn : notCoveredNote env cfg file i with
+  | none => exact h
+  | some n => exact rawAdd_pos env d file n h (notCoveredNote_pos env cfg file i n hi hn)
+
+theorem onlyOnce_pos (d : Dyn) (m : List Msg) (h : AllPos d) : AllPos { d with onlyOnce := m } := h
+
+theorem linkStage_pos (env : Env) (cfg : Cfg) (d : Dyn) (file : FileId) (i : Info) (h : AllPos d) (hi : PosOk i) :
+    AllPos (linkStage env cfg d file i) := by
+  unfold linkStage
+  cases i.code with
+  | none => exact h
+  | some c =>
+    simp only
+    split
+    · split
+      · exact h
+      · exact rawAdd_pos env _ file _ (onlyOnce_pos d _ h) hi
+    · exact h
+
+theorem reportHidden_pos (env : Env) (d : Dyn) (file : FileId) (i : Info) (h : AllPos d) (hi : PosOk i) :
+    AllPos (reportHidden env d file i) := by
+  unfold reportHidden
+  split
+  · exact h
+  · exact rawAdd_pos env _ file _ (onlyOnce_pos d _ h) hi
+
+theorem afterOnlyOnce_pos (env : Env) (cfg : Cfg) (d : Dyn) (file : FileId) (i : Info) (h : AllPos d) (hi : PosOk i) :
+    AllPos (afterOnlyOnce env cfg d file i) := by
+  unfold afterOnlyOnce hideStage
+  split
+  · exact linkStage_pos env cfg _ file _
+      (addNote_pos env cfg _ file _ (rawAdd_pos env _ file _ (reportHidden_pos env d file _ h hi) hi) hi) hi
+  · exact linkStage_pos env cfg _ file _ (addNote_pos env cfg _ file _ (rawAdd_pos env _ file _ h hi) hi) hi
+
+theorem addErrorInfo_pos (env : Env) (cfg : Cfg) (d : Dyn) (i : Info) (g : Option FileId) (h : AllPos d) (hi : PosOk i) :
+    AllPos (addErrorInfo env cfg d i g) := by
+  unfold addErrorInfo
+  cases ignoreStage env cfg (g.getD cfg.file) i with
+  | dropped => exact h
+  | ignoredAt l c => exact h
+  | pass =>
+    simp only [applyOutcome, storeStage]
+    split
+    · split
+      · exact h
+      · exact afterOnlyOnce_pos env cfg _ _ i (onlyOnce_pos d _ h) hi
+    · exact afterOnlyOnce_pos env cfg d _ i h hi
+
+theorem simpleError_pos (cfg : Cfg) (line : Int) (m : Msg) (c : Code) : PosOk (simpleError cfg line m c) := by
+  simp [PosOk, simpleError]
+
+theorem addAll_pos (env : Env) (file : FileId) (news : List Info) (hn : ∀ n ∈ news, PosOk n) :
+    ∀ d, AllPos d → AllPos (addAll env d file news) := by
+  induction news with
+  | nil => intro d h; exact h
+  | cons n ns ih =>
+    intro d h
+    simp only [addAll, List.foldl_cons]
+    exact ih (fun m hm => hn m (by simp [hm])) _ (rawAdd_pos env d file n h (hn n (by simp)))
+
+theorem unusedNews_pos (env : Env) (cfg : Cfg) (used : List (FileId × Int × CodeName)) (file : FileId) :
+    ∀ n ∈ unusedNews env cfg used file, PosOk n := by
+  intro n hn
+  simp only [unusedNews, List.mem_filterMap] at hn
+  obtain ⟨lc, _, h⟩ := hn
+  cases hm : unusedMsg env ((lookup file cfg.skippedLines).getD []) (usedCodesOf used file lc.1) lc.1 lc.2 with
+  | none => simp [hm] at h
+  | some m => simp [hm] at h; rw [← h]; exact simpleError_pos _ _ _ _
+
+theorem noCodeNews_pos (env : Env) (cfg : Cfg) (used : List (FileId × Int × CodeName)) (file : FileId) (w : Bool) :
+    ∀ n ∈ noCodeNews env cfg used file w, PosOk n := by
+  intro n hn
+  simp only [noCodeNews, List.mem_filterMap] at hn
+  obtain ⟨lc, _, h⟩ := hn
+  cases hm : noCodeMsg ((lookup file cfg.skippedLines).getD []) (usedCodesOf used file lc.1) w lc.1 lc.2 with
+  | none => simp [hm] at h
+  | some m => simp [hm] at h; rw [← h]; exact simpleError_pos _ _ _ _
+
+theorem clamp_line_le (line : Int) (c el ec : Option Int) :
+    (ErrPos.clamp line c el ec).line ≤ (ErrPos.clamp line c el ec).endLine := by
+  simp only [ErrPos.clamp, ErrPos.clampEndLine]
+  cases el with
+  | none => simp
+  | some e => simp only; split <;> omega
+
+theorem clamp_col_lt (line : Int) (c el ec : Option Int) :
+    (ErrPos.clamp line c el ec).endLine = (ErrPos.clamp line c el ec).line →
+    (ErrPos.clamp line c el ec).column < (ErrPos.clamp line c el ec).endColumn := by
+  intro h
+  simp only [ErrPos.clamp] at h ⊢
+  simp only [ErrPos.clampEndColumn]
+  split
+  · omega
+  · rename_i hn
+    have : ¬ (ErrPos.defaultEndColumn (ErrPos.clampColumn c) ec ≤ ErrPos.clampColumn c) := fun hle => hn ⟨h.symm, hle⟩
+    omega
+
+theorem mkInfo_pos (env : Env) (cfg : Cfg) (a : ReportArgs) : PosOk (mkInfo env cfg a) :=
+  ⟨clamp_line_le a.line a.column a.endLine a.endColumn,
+   fun h => Or.inl (clamp_col_lt a.line a.column a.endLine a.endColumn h)⟩
+
+/-- the infos handed to `add_error_info` directly have valid spans -/
+def posEv : Ev → Prop
+  | .add i _ => PosOk i
+  | _ => True
+instance (e : Ev) : Decidable (posEv e) := by cases e <;> (unfold posEv; infer_instance)
+
+theorem step_pos (env : Env) (s : St) (e : Ev) (h : AllPos s.dyn) (he : posEv e) : AllPos (step env s e).dyn := by
+  cases e with
+  | report a => exact addErrorInfo_pos env s.cfg s.dyn _ none h (mkInfo_pos env s.cfg a)
+  | add i g => exact addErrorInfo_pos env s.cfg s.dyn i g h he
+  | genUnused f ts =>
+    simp only [step, stepDyn, genUnused]
+    split
+    · exact h
+    · exact addAll_pos env f _ (unusedNews_pos env s.cfg s.dyn.used f) _ h
+  | genNoCode f w ts =>
+    simp only [step, stepDyn, genNoCode]
+    split
+    · exact h
+    · exact addAll_pos env f _ (noCodeNews_pos env s.cfg s.dyn.used f w) _ h
+  | _ => exact h
+
+theorem run_pos (env : Env) : ∀ (evs : List Ev) (s : St), AllPos s.dyn → (∀ e ∈ evs, posEv e) →
+    AllPos (run env s evs).dyn := by
+  intro evs
+  induction evs with
+  | nil => intro s h _; exact h
+  | cons e es ih =>
+    intro s h hev
+    simp only [run, List.foldl_cons]
+    exact ih (step env s e) (step_pos env s e h (hev e (by simp))) (fun x hx => hev x (by simp [hx]))
+
+/-! ## file_messages only rearranges and drops -/
+
+theorem mem_insertBy {α : Type} (le : α → α → Bool) (a x : α) : ∀ l, x ∈ insertBy le a l ↔ x = a ∨ x ∈ l := by
+  intro l
+  induction l with
+  | nil => simp [insertBy]
+  | cons y ys ih =>
+    simp only [insertBy]
+    split
+    · simp
+    · simp only [List.mem_cons, ih]
+      constructor
+      · rintro (h | h | h)
+        · exact Or.inr (Or.inl h)
+        · exact Or.inl h
+        · exact Or.inr (Or.inr h)
+      · rintro (h | h | h)
+        · exact Or.inr (Or.inl h)
+        · exact Or.inl h
+        · exact Or.inr (Or.inr h)
+
+theorem mem_sortBy {α : Type} (le : α → α → Bool) (x : α) : ∀ l, x ∈ sortBy le l ↔ x ∈ l := by
+  intro l
+  induction l with
+  | nil => simp [sortBy]
+  | cons y ys ih =>
+    simp only [sortBy, List.foldr_cons] at ih ⊢
+    rw [mem_insertBy, ih]
+    simp
+
+theorem runs_flatten {α : Type} (same : α → α → Bool) : ∀ l, (runs same l).flatten = l
+  | [] => by simp [runs]
+  | [x] => by simp [runs]
+  | x :: y :: ys => by
+    have ih := runs_flatten same (y :: ys)
+    simp only [runs]
+    cases hr : runs same (y :: ys) with
+    | nil => rw [hr] at ih; simp at ih
+    | cons r rs =>
+      rw [hr] at ih
+      simp only
+      split
+      · simp only [List.flatten_cons, List.cons_append] at ih ⊢; rw [ih]
+      · simp only [List.flatten_cons, List.cons_append, List.nil_append] at ih ⊢; rw [ih]
+
+theorem mem_flatten_map_runs {α : Type} (same : α → α → Bool) (g : List α → List α)
+    (hg : ∀ r x, x ∈ g r ↔ x ∈ r) (l : List α) (x : α) :
+    x ∈ ((runs same l).map g).flatten ↔ x ∈ l := by
+  constructor
+  · intro h
+    obtain ⟨r', hr', hx⟩ := List.mem_flatten.1 h
+    obtain ⟨r, hr, rfl⟩ := List.mem_map.1 hr'
+    have : x ∈ (runs same l).flatten := List.mem_flatten.2 ⟨r, hr, (hg r x).1 hx⟩
+    rwa [runs_flatten] at this
+  · intro h
+    rw [← runs_flatten same l] at h
+    obtain ⟨r, hr, hx⟩ := List.mem_flatten.1 h
+    exact List.mem_flatten.2 ⟨g r, List.mem_map.2 ⟨r, hr, rfl⟩, (hg r x).2 hx⟩
+
+theorem mem_sortWithinContext (l : List Info) (x : Info) : x ∈ sortWithinContext l ↔ x ∈ l :=
+  mem_flatten_map_runs _ _ (fun r y => mem_sortBy _ y r) l x
+
+theorem mem_sortMessages (l : List Info) (x : Info) : x ∈ sortMessages l ↔ x ∈ l :=
+  mem_flatten_map_runs _ _ (fun r y => by rw [mem_sortWithinContext, mem_sortBy]) l x
+
+theorem dedupScan_sub : ∀ (l : List Info) (seen : List (Int × Sev × Msg)) (x : Info),
+    x ∈ (dedupScan l seen).1 → x ∈ l := by
+  intro l
+  induction l with
+  | nil => intro seen x h; simp [dedupScan] at h
+  | cons e es ih =>
+    intro seen x h
+    simp only [dedupScan] at h
+    split at h
+    · simp only [List.mem_cons] at h ⊢
+      rcases h with h | h
+      · exact Or.inl h
+      · exact Or.inr (ih _ x h)
+    · split at h
+      · exact List.mem_cons_of_mem _ (ih _ x h)
+      · simp only [List.mem_cons] at h ⊢
+        rcases h with h | h
+        · exact Or.inl h
+        · exact Or.inr (ih _ x h)
+
+theorem removeDuplicates_sub (l : List Info) (x : Info) (h : x ∈ removeDuplicates l) : x ∈ l := by
+  simp only [removeDuplicates, List.mem_filter] at h
+  exact dedupScan_sub l [] x h.1
+
+/-- **no message is invented**: every tuple `file_messages` returns renders a stored, non-hidden ErrorInfo of that file -/
+theorem fileMessages_sub (d : Dyn) (path : FileId) (t : Tuple) (h : t ∈ fileMessages d path) :
+    ∃ i, (path, i) ∈ d.infos ∧ i.hidden = false ∧ t = render i := by
+  simp only [fileMessages, List.mem_map] at h
+  obtain ⟨i, hi, rfl⟩ := h
+  have h1 := removeDuplicates_sub _ i hi
+  rw [mem_sortMessages] at h1
+  simp only [List.mem_filter, fileInfos, List.mem_map] at h1
+  obtain ⟨⟨p, hp, rfl⟩, hh⟩ := h1
+  refine ⟨p.2, ?_, by simpa using hh, rfl⟩
+  have : p.1 = path := by simpa using hp.2
+  rw [← this]
+  exact hp.1
+
+/-- first loop of remove_duplicates: a parentless element is kept or has its key in `seen`/kept earlier -/
+theorem dedupScan_repr : ∀ (l : List Info) (seen : List (Int × Sev × Msg)) (x : Info),
+    x ∈ l → x.parent = none →
+    (x.line, x.sev, x.msg) ∈ seen ∨
+    ∃ y ∈ (dedupScan l seen).1, y.parent = none ∧ (y.line, y.sev, y.msg) = (x.line, x.sev, x.msg) := by
+  intro l
+  induction l with
+  | nil => intro seen x h; cases h
+  | cons e es ih =>
+    intro seen x hx hp
+    simp only [dedupScan]
+    rcases List.mem_cons.1 hx with rfl | hx'
+    · simp only [hp, Option.isSome_none, Bool.false_eq_true, if_false]
+      split
+      · rename_i hs; exact Or.inl hs
+      · exact Or.inr ⟨x, by simp, hp, rfl⟩
+    · split
+      · rcases ih seen x hx' hp with h | ⟨y, hy, hy2⟩
+        · exact Or.inl h
+        · exact Or.inr ⟨y, by simp [hy], hy2⟩
+      · split
+        · rcases ih seen x hx' hp with h | ⟨y, hy, hy2⟩
+          · exact Or.inl h
+          · exact Or.inr ⟨y, hy, hy2⟩
+        · rename_i hpe hns
+          rcases ih ((e.line, e.sev, e.msg) :: seen) x hx' hp with h | ⟨y, hy, hy2⟩
+          · rcases List.mem_cons.1 h with h | h
+            · refine Or.inr ⟨e, by simp, ?_, h.symm⟩
+              cases hpar : e.parent with
+              | none => rfl
+              | some p => simp [hpar] at hpe
+            · exact Or.inl h
+          · exact Or.inr ⟨y, by simp [hy], hy2⟩
+
+/-- **nothing is lost but duplicates**: a parentless element of the input has a representative with the same
+    (line, severity, message) in the output of `remove_duplicates` -/
+theorem removeDuplicates_repr (l : List Info) (x : Info) (hx : x ∈ l) (hp : x.parent = none) :
+    ∃ y ∈ removeDuplicates l, (y.line, y.sev, y.msg) = (x.line, x.sev, x.msg) := by
+  rcases dedupScan_repr l [] x hx hp with h | ⟨y, hy, hyp, hk⟩
+  · cases h
+  · refine ⟨y, ?_, hk⟩
+    simp only [removeDuplicates, List.mem_filter]
+    exact ⟨hy, by simp [parentRemoved, hyp]⟩
+
+/-- a stored, visible, parentless info is shown by `file_messages` (itself or an identical-looking earlier one) -/
+theorem fileMessages_shows (d : Dyn) (path : FileId) (i : Info) (h : (path, i) ∈ d.infos)
+    (hh : i.hidden = false) (hp : i.parent = none) :
+    ∃ t ∈ fileMessages d path, t.line = i.line ∧ t.sev = i.sev ∧ t.msg = i.msg := by
+  have h1 : i ∈ sortMessages ((fileInfos d path).filter fun i => !i.hidden) := by
+    rw [mem_sortMessages]
+    simp only [List.mem_filter, fileInfos, List.mem_map]
+    exact ⟨⟨(path, i), by simp [h], rfl⟩, by simp [hh]⟩
+  obtain ⟨y, hy, hk⟩ := removeDuplicates_repr _ i h1 hp
+  refine ⟨render y, List.mem_map.2 ⟨y, hy, rfl⟩, ?_⟩
+  simp only [Prod.mk.injEq] at hk
+  exact ⟨hk.1, hk.2.1, hk.2.2⟩
+
 end Errors
